@@ -15,7 +15,9 @@ of continues/choices in lockstep with the original: immediate view (can_continue
 globals, visit counts), every later observation, final view and final canonical save must be equal, and \
 re-saving right after the load must give a canonically equal save. Non-trivial save point = its JSON has \
 call-stack depth > 1, or > 1 thread, or a choiceThreads entry, or > 1 flow, or a list variable, or \
-previousRandom != 0, or pending output text; distinct = hash(program, history prefix).";
+previousRandom != 0, or pending output text; distinct = hash(program, history prefix). A third leg runs the same \
+oracle over a float-extremes program family (four float globals, generated assignments that overflow to \
+infinities, cancel them or are undefined), where the one known finding (NaN restored as 0.0) lives.";
 
 fn profile() -> Profile {
     Profile {
